@@ -129,13 +129,18 @@ class Driver:
     def run(self, lines: list[str]) -> list[str]:
         if not lines:
             return []
-        p = subprocess.run([str(DRIVER)], input=("\n".join(lines) + "\n").encode(),
-                           capture_output=True, timeout=600)
-        if p.returncode != 0:
-            raise RuntimeError(f"driver failed rc={p.returncode}: {p.stderr.decode()[:500]}")
-        out = p.stdout.decode().splitlines()
-        if len(out) != len(lines):
-            raise RuntimeError(f"driver answered {len(out)} lines for {len(lines)}")
+        out = []
+        # batches: a busy machine must not turn one huge batch into a timeout
+        for i in range(0, len(lines), 400):
+            chunk = lines[i:i + 400]
+            p = subprocess.run([str(DRIVER)], input=("\n".join(chunk) + "\n").encode(),
+                               capture_output=True, timeout=1800)
+            if p.returncode != 0:
+                raise RuntimeError(f"driver failed rc={p.returncode}: {p.stderr.decode()[:500]}")
+            o = p.stdout.decode().splitlines()
+            if len(o) != len(chunk):
+                raise RuntimeError(f"driver answered {len(o)} lines for {len(chunk)}")
+            out += o
         return out
 
 
